@@ -5142,6 +5142,7 @@ class State:
         if (
                 self.all_in_status
                 and self.street_index != self.street_count - 1
+                and sum(self.statuses) > 1
         ):
             self._begin_dealing()
         else:
